@@ -864,11 +864,11 @@ def _tnorm(fn, n, depth=0, hi=None):
                 and not b[1]["pat"].get("mut") and not b[1]["pat"].get("byref") and pure_expr(b[1]["init"], fn) and not _reads_assigned(fn, b[1]["init"], b[1].order, hi if hi is not None else n.order):
             return _tnorm(fn, b[1]["init"], depth + 1, hi if hi is not None else n.order)
     out = Node({})
-    out.parent = None
-    out.pkey = None
-    out.fn = None
-    out.file = None
-    out.order = -1
+    out.parent = n.parent        # copies keep their place in the original tree (scope / origin queries on leaves keep working)
+    out.pkey = n.pkey
+    out.fn = n.fn
+    out.file = n.file
+    out.order = n.order
     for key, v in n.items():
         if isinstance(v, Node) or isinstance(v, list):
             out[key] = _tnorm(fn, v, depth, hi)
